@@ -28,10 +28,12 @@ Ls(c, p, s) == [cat |-> c, prod |-> p, svc |-> s, def |-> <<>>]
 LsD(c, p, s, d) == [cat |-> c, prod |-> p, svc |-> s, def |-> d]      \* with a definition: a note for the reader, no part of the matching
 RuleLs == Ls(cat1, prod1, svc1)
 FilterLss == {LsD(cat1, <<>>, <<>>, <<110,111,116,101>>), LsD(cat1, prod1, svc1, <<110,111,116,101>>), Ls(cat1, <<>>, <<>>), Ls(<<>>, prod1, <<>>), Ls(cat1, prod1, svc1), Ls(cat2, <<>>, <<>>), Ls(cat1, prod2, <<>>), Ls(<<>>, <<>>, svc1)}
-Uid(k) == <<48,48,48,48,48,48,48,48,45,48,48,48,48,45,52,48,48,48,45,56,48,48,48,45,48,48,48,48,48,48,48,48,48,48,48,48 + k>>
+Uid(k) == <<48,48,48,48,97,98,99,100,45,48,48,48,48,45,52,48,48,48,45,56,48,48,48,45,48,48,48,48,48,48,48,48,48,48,48,48 + k>>
 r1name == <<114,49>> r2name == <<114,50>>
-RuleListKinds == {"name", "id", "any", "empty", "other"}
-RulesOf(kind) == CASE kind = "name" -> <<r1name>> [] kind = "id" -> <<Uid(1)>> [] kind = "other" -> <<r2name>> [] OTHER -> <<>>
+RuleListKinds == {"name", "id", "idU", "any", "empty", "other", "otherid"}
+UpperId(t) == [i \in 1..Len(t) |-> IF t[i] >= 97 /\ t[i] <= 102 THEN t[i] - 32 ELSE t[i]]     \* the same UUID in upper case
+RulesOf(kind) == CASE kind = "name" -> <<r1name>> [] kind = "id" -> <<Uid(1)>> [] kind = "idU" -> <<UpperId(Uid(1))>>
+                   [] kind = "other" -> <<r2name>> [] kind = "otherid" -> <<UpperId(Uid(2))>> [] OTHER -> <<>>
 Rule1(rc) == [name |-> r1name, uid |-> Uid(1), ls |-> RuleLs,
               doc |-> [dets |-> [k \in 1..Len(RuleNames) |-> Det(RP, RuleNames[k])], conds |-> rc]]
 Rule2 == [name |-> r2name, uid |-> Uid(2), ls |-> Ls(cat2, prod2, <<>>),
